@@ -29,6 +29,7 @@ type CaseRec struct {
 	L  string `sod:"lower"`
 	UU string `sod:"unique,upper"`
 	LL string `sod:"index,lower"`
+	LU string `sod:"lower,unique"` // transformer listed before unique in the tag
 	In *CaseIn
 	CaseEmb
 	Raw string `sod:"index"`
@@ -45,6 +46,7 @@ var casePaths = []casePath{
 	{"L", false, func(r *CaseRec) string { return r.L }},
 	{"UU", true, func(r *CaseRec) string { return r.UU }},
 	{"LL", false, func(r *CaseRec) string { return r.LL }},
+	{"LU", false, func(r *CaseRec) string { return r.LU }},
 	{"In.Deep", false, func(r *CaseRec) string {
 		if r.In == nil {
 			return ""
@@ -86,7 +88,7 @@ func caseStrings(maxLen int) []string {
 }
 
 func newCaseRec(s string, withIn bool) *CaseRec {
-	r := &CaseRec{U: s, L: s, UU: s, LL: s, Raw: s, CaseEmb: CaseEmb{EU: s}}
+	r := &CaseRec{U: s, L: s, UU: s, LL: s, LU: "lu" + s, Raw: s, CaseEmb: CaseEmb{EU: s}}
 	if withIn {
 		r.In = &CaseIn{Deep: s, Plain: s}
 	}
@@ -150,7 +152,7 @@ func runC16(c *Ctx) {
 		}
 	}
 	// (b) stored values, searches and uniqueness through the database
-	cfgs := []Cfg{{}, {Cache: true, Index: 1}, {Index: 2, Async: 1}}
+	cfgs := []Cfg{{}, {Cache: true, Index: 1}, {Index: 2, Async: 1}, {Ext: ".swapped"}}
 	short := caseStrings(1)
 	pairsOf := strs
 	if c.Tier == "quick" {
@@ -169,13 +171,33 @@ func runC16(c *Ctx) {
 					return
 				}
 				cfg, withIn, s1 := cfg, withIn, s1
+				swapped := cfg.Ext == ".swapped"
+				if swapped {
+					cfg.Ext = ""
+				}
 				var viol []Violation
 				fail := func(sig, what string) {
 					viol = append(viol, Violation{Sig: "C16|" + sig, What: what, Cfg: cfg, More: map[string]interface{}{"s1": s1, "withIn": withIn}})
 				}
 				x := RunPath(cfg, "C16", nil, func(w *World) {
 					db := w.DB
-					if err := db.Create(&CaseRec{}, cfg.Schema(&CaseRec{})); err != nil {
+					schema := cfg.Schema(&CaseRec{})
+					if swapped {
+						// a custom schema whose case constraints differ from the struct tags:
+						// Raw becomes lower, L loses its constraint
+						fds := sod.FieldDescriptors(&CaseRec{})
+						for path, fd := range fds {
+							switch path {
+							case "Raw":
+								fd.Constraints.Lower = true
+							case "L":
+								fd.Constraints.Lower = false
+							}
+							fds[path] = fd
+						}
+						schema = sod.NewCustomSchema(fds, sod.DefaultExtension)
+					}
+					if err := db.Create(&CaseRec{}, schema); err != nil {
 						fail("create", "Create failed: "+err.Error())
 						return
 					}
@@ -196,13 +218,24 @@ func runC16(c *Ctx) {
 						if strings.HasPrefix(p.Path, "In.") && !withIn {
 							continue
 						}
-						if want := canonCase(p.Upper, s1); p.get(got) != want {
+						want := canonCase(p.Upper, s1)
+						if p.Path == "LU" {
+							want = canonCase(false, "lu"+s1)
+						}
+						if swapped && p.Path == "L" {
+							want = s1 // the custom schema removed the constraint of L
+						}
+						if p.get(got) != want {
 							fail("stored-not-canonical|"+p.Path, fmt.Sprintf("field %s stored as %q, canonical form of %q is %q", p.Path, p.get(got), s1, want))
 							return
 						}
 					}
-					if got.Raw != s1 {
-						fail("raw-changed", fmt.Sprintf("unconstrained field changed from %q to %q", s1, got.Raw))
+					wantRaw := s1
+					if swapped {
+						wantRaw = strings.ToLower(s1) // the custom schema put a lower constraint on Raw
+					}
+					if got.Raw != wantRaw {
+						fail("raw-changed", fmt.Sprintf("field Raw stored as %q, expected %q", got.Raw, wantRaw))
 						return
 					}
 					// searches with case variants of s1 and with neighbours
@@ -212,6 +245,9 @@ func runC16(c *Ctx) {
 						stored := canonCase(p.Upper, s1)
 						if strings.HasPrefix(p.Path, "In.") && !withIn {
 							stored = ""
+						}
+						if p.Path == "LU" || (swapped && p.Path == "L") {
+							continue
 						}
 						for _, probe := range probes {
 							cp := canonCase(p.Upper, probe)
@@ -240,6 +276,16 @@ func runC16(c *Ctx) {
 							}
 						}
 					}
+					if swapped {
+						for _, probe := range probes {
+							sr := db.Search(&CaseRec{}, "Raw", "=", probe)
+							want := strings.ToLower(probe) == strings.ToLower(s1)
+							if sr.Err() != nil || (sr.Len() == 1) != want {
+								fail("search-case|Raw|custom", fmt.Sprintf("custom schema gives Raw a lower constraint: Search(Raw = %q) on stored %q found %d (err %v), expected match=%v", probe, s1, sr.Len(), sr.Err(), want))
+								return
+							}
+						}
+					}
 					// uniqueness is judged on canonical values
 					for _, s2 := range short {
 						b := newCaseRec(s2+"x", withIn)
@@ -250,7 +296,7 @@ func runC16(c *Ctx) {
 							b.UU = s2 + s1[sz:]
 						}
 						err := db.InsertOrUpdate(b)
-						conflict := strings.ToUpper(b.UU) == strings.ToUpper(s1)
+						conflict := strings.ToUpper(b.UU) == strings.ToUpper(s1) || strings.ToLower(b.LU) == strings.ToLower(a.LU)
 						if conflict != sod.IsUnique(err) || (!conflict && err != nil) {
 							fail("unique-canonical", fmt.Sprintf("stored UU=%q, inserting UU=%q: err=%v, canonical values equal=%v", s1, b.UU, err, conflict))
 							return
